@@ -76,7 +76,7 @@ const char *__asan_default_options(void) { return "detect_leaks=0:abort_on_error
 const char *__ubsan_default_options(void) { return "print_stacktrace=0"; }
 
 #define M 251
-#define EXEC_SECONDS 10
+#define EXEC_SECONDS 20
 #define MAXSEG 64
 #define MAXOPS 64
 
